@@ -1,4 +1,5 @@
 import RemocModel.Table.Model
+import RemocModel.Table.ConnInv
 import Driver.WireText
 /-
 Driver for the connection-level correspondence (C07, C10): two real chmux endpoints on
@@ -18,9 +19,16 @@ script-owned wires, every script step followed by a settle.  Per trace the drive
            reused before both directions are finished; after everything is dropped both dispatchers
            return Ok, the allocators are back to full capacity and no task is left.
 
+      inv  after every frame put on or taken off a wire the decidable global invariant of the two-endpoint
+           system model (`RemocModel/Table/ConnInv.lean`: request location / credit equation -> c10, pairing and
+           no-message-for-a-freed-port, connection flags -> c07) is evaluated on the reconstructed state (both
+           dispatcher models, both wires); `Props/C07.lean`, `C08.lean`, `C10.lean` prove it for every
+           interleaving of the model.
+
 Output: `DIFF|FAIL …`, `END <trace> events=<n> replay=<ok|mismatch> c07=<ok|FAIL> c10=<ok|FAIL>`.
 -/
 open Driver Remoc.Wire Remoc.Table
+open Remoc.Table.Sys (requeue reqEqB reqInvB portInvB flagInvB)
 
 abbrev AL (α : Type) := List (String × α)
 def AL.get? {α} (m : AL α) (k : String) : Option α := (m.find? (·.1 == k)).map (·.2)
@@ -62,6 +70,8 @@ structure Side where
   openRx : List Nat := []
   maxPorts : Nat := 0
   allocFree : Option Nat := none
+  /-- `outstanding` of the model at the last quiescent point -/
+  outAtSettle : List Nat := []
 
 structure CSim where
   name : String := ""
@@ -83,6 +93,12 @@ structure CSim where
   tasksBefore : Option Nat := none
   /-- wires whose window or release was restricted by the script and not reopened yet -/
   stalled : List String := []
+  /-- messages in flight towards A / towards B (every decodable frame, `Data` payloads excluded) -/
+  toA : List Msg := []
+  toB : List Msg := []
+  sawPortData : Bool := false
+  invOk : Bool := true
+  invChecks : Nat := 0
   replayOk : Bool := true
   c07 : Bool := true
   c10 : Bool := true
@@ -151,6 +167,16 @@ def CSim.onTxMsg (s : CSim) (line : Nat) (x : String) (m : Msg) : CSim :=
       let sd := { sd with open_ := sd.open_ ++ [({ num := sp, peer := some cp, connecting := false } : WPort)] }
       let s := if sd.open_.length > sd.maxPorts then s.fail "c07" line s!"side {x} has {sd.open_.length} ports open on the wire, max_ports is {sd.maxPorts}" else s
       (s, sd)
+    | .goodbye =>
+      -- enabling condition of the internal label `goodbye` of the system model (`should_terminate`), in the
+      -- form that is stable under frames delivered between the dispatcher's decision and this line
+      let e := sd.ep
+      let ok := e.goodbyeReceived || (e.ports.isEmpty && (e.allClientsDropped || e.remoteListenerDropped) &&
+                  (e.listenerDropped || e.remoteClientDropped) && (e.outstanding.filter (sd.outAtSettle.contains ·)).isEmpty)
+      let s := if !ok && s.replayOk && s.stalled.isEmpty then
+          s.fail "c07" line s!"side {x} sent Goodbye although its dispatcher must keep running: {e.ports.length} port(s) in its table, {(e.outstanding.filter (sd.outAtSettle.contains ·)).length} request(s) of the peer unanswered since the last quiescent point, clients dropped={e.allClientsDropped} listener dropped={e.listenerDropped}"
+        else s
+      (s, sd)
     | .sendFinish rp =>
       (s, { sd with open_ := pruneDone (sd.open_.map (fun (p : WPort) => if p.peer == some rp && !p.sf then { p with sf := true } else p)) })
     | .receiveFinish rp =>
@@ -166,7 +192,9 @@ def CSim.onTxMsg (s : CSim) (line : Nat) (x : String) (m : Msg) : CSim :=
     let ep0 := sd.ep
     let sd := { sd with open_ := sd.open_ ++ ps.map (fun p => ({ num := p } : WPort)),
                         ep := { ep0 with ports := ps.foldl (fun acc p => setPort acc p .connecting) ep0.ports,
-                                         allocated := ep0.allocated ++ ps } }
+                                         allocated := ep0.allocated ++ ps,
+                                         -- every connecting port counts (the model decrements on each answer)
+                                         clientPending := ep0.clientPending + ps.length } }
     s.setSide x sd
   | .portCredits rp n =>
     -- credits are returned for whole messages taken out of the port queue, oldest first
@@ -188,7 +216,8 @@ def CSim.onTxMsg (s : CSim) (line : Nat) (x : String) (m : Msg) : CSim :=
     -- answers the dispatcher gives on its own (`handleRx` emissions) reach the wire through a spawned task
     -- and the event queue, so messages caused by local calls may overtake them; at a quiescent point
     -- none may be missing (`settled`)
-    if sd.expectTx.contains m then s.setSide x { sd with expectTx := sd.expectTx.erase m } else
+    let sd := if sd.expectTx.contains m then { sd with expectTx := sd.expectTx.erase m } else sd
+    let s := s.setSide x sd
     match ([] : List Msg) with
     | _ :: _ => s
     | [] =>
@@ -234,8 +263,46 @@ def CSim.onRxMsg (s : CSim) (line : Nat) (x : String) (m : Msg) : CSim :=
   | .data p f l => s.setSide x { sd with hdrRx := some (p, f, l) }
   | m =>
     match handleRx sd.ep m with
-    | .ok (e', emit) => s.setSide x { sd with ep := e', expectTx := sd.expectTx ++ emit }
+    -- the automatic answer goes through the request's drop task and the event queue: the request stays
+    -- outstanding until the answer is on the wire (`Sys.requeue`)
+    | .ok (e', emit) => s.setSide x { sd with ep := requeue e' emit, expectTx := sd.expectTx ++ emit }
     | .error _ => s.diff line s!"side {x}: the model raises a protocol error on {msgToText m} delivered by a conforming peer"
+
+/-- the two wires: a frame put on the wire by `x` travels towards the other side; a delivered frame
+must be the oldest one in flight -/
+def CSim.trackWire (s : CSim) (line : Nat) (isTx : Bool) (x : String) (m : Msg) : CSim :=
+  let s := match m with | .portData .. => { s with sawPortData := true } | _ => s
+  if isTx then
+    if x == "A" then { s with toB := s.toB ++ [m] } else { s with toA := s.toA ++ [m] }
+  else
+    let w := if x == "A" then s.toA else s.toB
+    match w with
+    | h :: rest =>
+      let s := if x == "A" then { s with toA := rest } else { s with toB := rest }
+      if h == m then s else s.diff line s!"side {x} received {msgToText m} but the oldest frame in flight is {msgToText h}"
+    | [] => s.diff line s!"side {x} received {msgToText m} which was never put on the wire"
+
+/-- evaluate the decidable global invariant of the system model on the reconstructed state -/
+def CSim.checkInv (s : CSim) (line : Nat) (isTx : Bool) (x : String) (m : Msg) : CSim :=
+  if !s.replayOk || !s.invOk then s else
+  let a := s.a.ep
+  let b := s.b.ep
+  let s := { s with invChecks := s.invChecks + 1 }
+  let at_ := s!"after side {x} {if isTx then "sent" else "received"} {msgToText m}"
+  let req := fun (c v : Ep) (wcv wvc : List Msg) => if s.sawPortData then reqEqB c v wcv wvc else reqInvB c v wcv wvc
+  if !(req a b s.toB s.toA) then
+    { (s.fail "c10" line s!"global invariant (requests of A: each connecting port is exactly one of in flight / outstanding at B / answered in flight, at most the advertised queue) violated {at_}") with invOk := false }
+  else if !(req b a s.toA s.toB) then
+    { (s.fail "c10" line s!"global invariant (requests of B: each connecting port is exactly one of in flight / outstanding at A / answered in flight, at most the advertised queue) violated {at_}") with invOk := false }
+  else if !(portInvB a b s.toB) then
+    { (s.fail "c07" line s!"global invariant (ports, direction A to B: pairing, one finish per flag, no frame for a port that is not in the table) violated {at_}") with invOk := false }
+  else if !(portInvB b a s.toA) then
+    { (s.fail "c07" line s!"global invariant (ports, direction B to A: pairing, one finish per flag, no frame for a port that is not in the table) violated {at_}") with invOk := false }
+  else if !(flagInvB a b s.toB) then
+    { (s.fail "c07" line s!"global invariant (connection flags A to B: ClientFinish/ListenerFinish/Goodbye once, nothing after Goodbye, no request after ClientFinish) violated {at_}") with invOk := false }
+  else if !(flagInvB b a s.toA) then
+    { (s.fail "c07" line s!"global invariant (connection flags B to A: ClientFinish/ListenerFinish/Goodbye once, nothing after Goodbye, no request after ClientFinish) violated {at_}") with invOk := false }
+  else s
 
 def CSim.onWire (s : CSim) (line : Nat) (isTx : Bool) (x : String) (hex : String) : CSim :=
   if !s.started then s else
@@ -267,7 +334,9 @@ def CSim.onWire (s : CSim) (line : Nat) (isTx : Bool) (x : String) (hex : String
     else
       match decode bs with
       | .error _ => s.diff line s!"frame not decodable by the v3 spec decoder: {hex}"
-      | .ok m => if isTx then s.onTxMsg line x m else s.onRxMsg line x m
+      | .ok m =>
+        let s := if isTx then s.onTxMsg line x m else s.onRxMsg line x m
+        (s.trackWire line isTx x m).checkInv line isTx x m
 
 /-- the text sent by `labelall`: "L:<local>:<remote>" of the sending handle -/
 def parseLabel (bs : List UInt8) : Option (Nat × Nat) :=
@@ -331,7 +400,7 @@ def finishTrace (s : CSim) : IO Unit := do
   if s.name != "" then
     for l in s.out do IO.println l
     let b := fun (x : Bool) => if x then "ok" else "FAIL"
-    IO.println s!"END {s.name} events={s.events} replay={if s.replayOk then "ok" else "mismatch"} c07={b s.c07} c10={b s.c10}"
+    IO.println s!"END {s.name} events={s.events} replay={if s.replayOk then "ok" else "mismatch"} c07={b s.c07} c10={b s.c10} inv={s.invChecks}"
 
 def stepLine (a : CAcc) (n : Nat) (line : String) : IO CAcc := do
   let ws := words line
@@ -379,6 +448,7 @@ def stepLine (a : CAcc) (n : Nat) (line : String) : IO CAcc := do
       return { a with sim := { s with stalled := if v == "inf" then st else st ++ [key] } }
     else return { a with sim := s }
   | "settled" :: _ =>
+    let s := { s with a := { s.a with outAtSettle := s.a.ep.outstanding }, b := { s.b with outAtSettle := s.b.ep.outstanding } }
     if s.teardown || !s.stalled.isEmpty then return { a with sim := s } else
     let chk := fun (s : CSim) (x : String) =>
       match (s.side x).run, (s.side x).expectTx with
